@@ -441,11 +441,13 @@ func (l *lexer) scanString(start int) (int, string) {
 			case '(':
 				if !l.inString {
 					l.inString = true
+					l.token = l.source[start:l.offset]
 					return tokStringStart, ""
 				}
 				if i == l.offset+1 {
 					l.offset += 2
 					l.inString = false
+					l.token = l.source[l.offset-2 : l.offset]
 					return tokStringQuery, ""
 				}
 				l.offset = i - 1
@@ -481,6 +483,7 @@ func (l *lexer) scanString(start int) (int, string) {
 			}
 			l.inString = false
 			l.offset = i + 1
+			l.token = l.source[i:l.offset]
 			return tokStringEnd, ""
 		default:
 			if !decode {
